@@ -308,7 +308,91 @@ fn handle_run(req: &Request, resp: &mut Response) -> bool {
         st.trace_cap = 2_000_000;
         st.monitor_enabled = req.want.iter().any(|w| w == "monitor");
     }
+    // what an embedding may hold on to across runs and resets: compiled functions and values it read
+    // from globals (rooted for as long as it keeps them)
+    let mut kept_functions: Vec<Root<ObjFunction>> = Vec::new();
+    let mut kept_values: BTreeMap<String, (Value, Box<dyn std::any::Any>)> = BTreeMap::new();
     for src in &req.snippets {
+        if let Some(rest) = src.strip_prefix("\u{0}host:") {
+            // host-side steps between programs (none of them prints; each reports Ok or what failed)
+            let r = panic::catch_unwind(AssertUnwindSafe(|| -> Result<(), String> {
+                if let Some(text) = rest.strip_prefix("compile_keep:") {
+                    let f = compiler::compile(&mut vm, text.to_string(), None).map_err(|e| format!("{:?}", e.messages()))?;
+                    kept_functions.push(f);
+                    Ok(())
+                } else if let Some(k) = rest.strip_prefix("keep_global:") {
+                    let v = vm.global("main", k).ok_or_else(|| format!("no global {}", k))?;
+                    let root: Box<dyn std::any::Any> = match v {
+                        Value::ObjString(g) => Box::new(g.as_root()),
+                        Value::ObjClosure(g) => Box::new(g.as_root()),
+                        Value::ObjClass(g) => Box::new(g.as_root()),
+                        Value::ObjInstance(g) => Box::new(g.as_root()),
+                        Value::ObjTuple(g) => Box::new(g.as_root()),
+                        Value::ObjVec(g) => Box::new(g.as_root()),
+                        Value::ObjHashMap(g) => Box::new(g.as_root()),
+                        Value::ObjRange(g) => Box::new(g.as_root()),
+                        Value::ObjFiber(g) => Box::new(g.as_root()),
+                        Value::ObjBoundMethod(g) => Box::new(g.as_root()),
+                        _ => Box::new(()),
+                    };
+                    kept_values.insert(k.to_string(), (v, root));
+                    Ok(())
+                } else if let Some(k) = rest.strip_prefix("restore_global:") {
+                    let (v, _) = kept_values.get(k).ok_or_else(|| format!("nothing kept under {}", k))?;
+                    vm.set_global("main", k, *v);
+                    Ok(())
+                } else if let Some(text) = rest.strip_prefix("make_string_global:") {
+                    // "name:text": a string the host makes now
+                    let (name, text) = text.split_once(':').ok_or("name:text expected")?;
+                    let sref = vm.new_gc_obj_string(text);
+                    vm.set_global("main", name, Value::ObjString(sref));
+                    Ok(())
+                } else {
+                    Err(format!("unknown host step {}", rest))
+                }
+            }));
+            let outcome = match r {
+                Ok(Ok(())) => Outcome::Ok,
+                Ok(Err(m)) => Outcome::Err { kind: "HostStep".into(), messages: vec![m] },
+                Err(_) => Outcome::Panic { msg: PANIC_MSG.with(|p| p.borrow_mut().take()).unwrap_or_default() },
+            };
+            let is_panic = matches!(outcome, Outcome::Panic { .. });
+            resp.results.push(SnippetResult { out: vec![], outcome });
+            if is_panic {
+                panicked = true;
+                break;
+            }
+            continue;
+        }
+        if let Some(k) = src.strip_prefix("\u{0}run_kept:") {
+            // execute a function compiled (and kept) earlier
+            OUTPUT.with(|o| o.borrow_mut().clear());
+            let idx: usize = k.trim().parse().unwrap_or(0);
+            let f = kept_functions.get(idx).cloned();
+            let result = panic::catch_unwind(AssertUnwindSafe(|| -> Result<Value, Error> {
+                #[cfg(feature = "hooks")]
+                {
+                    vm.verif_state().fuel = req.fuel;
+                }
+                match f {
+                    Some(f) => vm.execute(f, &[]),
+                    None => Err(Error::with_message(ErrorKind::RuntimeError, "no kept function")),
+                }
+            }));
+            let out = OUTPUT.with(|o| std::mem::take(&mut *o.borrow_mut()));
+            let outcome = match result {
+                Ok(Ok(_)) => Outcome::Ok,
+                Ok(Err(e)) => Outcome::Err { kind: kind_name(e.kind()).to_string(), messages: e.messages().clone() },
+                Err(_) => Outcome::Panic { msg: PANIC_MSG.with(|p| p.borrow_mut().take()).unwrap_or_default() },
+            };
+            let is_panic = matches!(outcome, Outcome::Panic { .. });
+            resp.results.push(SnippetResult { out, outcome });
+            if is_panic {
+                panicked = true;
+                break;
+            }
+            continue;
+        }
         if src == RESET_SNIPPET {
             let r = panic::catch_unwind(AssertUnwindSafe(|| vm.reset()));
             let outcome = match r {
@@ -338,6 +422,13 @@ fn handle_run(req: &Request, resp: &mut Response) -> bool {
             panicked = true;
             break;
         }
+    }
+    if panicked {
+        std::mem::forget(kept_functions);
+        std::mem::forget(kept_values);
+    } else {
+        drop(kept_functions);
+        drop(kept_values);
     }
     #[cfg(feature = "hooks")]
     {
